@@ -318,4 +318,23 @@ example : [1, 2, 3].map (rackAssign rkMembers rkParts (fun _ => [0, 1, 2]) (fun 
 example : [1, 2, 3].map (rackAssign rkMembers rkParts (fun _ => [1, 2, 0]) (fun _ => [1, 2, 0]) 0) =
     [some [0, 1], some [3, 4, 5], some [6, 2]] := by decide
 
+/-! ## 5. The hypothesis "a member lists a topic at most once" is needed (of the model, and — the driver's
+outside-the-hypotheses cases show the code behaves the same — of groupbalancer.go): with a repeated topic the
+member is entered twice into `membersByTopic[t]`; Range/RoundRobin then hand it two shares, RackAffinity's last loop
+sees the first share when it reaches the second copy and leaves a partition unassigned. -/
+
+theorem range_balanced_needs_topics_once_counterexample :
+    let ms : List Member := [⟨1, [0, 0], 0⟩, ⟨2, [0], 0⟩]
+    let ps : List Part := (List.range 6).map fun i => ⟨0, Int.ofNat i, 0⟩
+    DistinctIds ms ∧ ¬ TopicsOnce ms ∧ rangeAssign ms ps 0 1 = [0, 1, 2, 3] ∧ rangeAssign ms ps 0 2 = [4, 5] ∧
+      ¬ BalancedAt ms (rangeAssign ms ps) 0 := by decide
+
+theorem rack_cover_needs_topics_once_counterexample :
+    let ms : List Member := [⟨7, [0, 0], 0⟩]
+    let ps : List Part := [⟨0, 0, 1⟩, ⟨0, 1, 1⟩]
+    DistinctIds ms ∧ ¬ TopicsOnce ms ∧ IterOrder ps 0 [1] ∧
+      rackAssign ms ps (fun _ => [1]) (fun _ => [1]) 0 7 = some [0] ∧
+      ¬ CoverAt ms ps (rackAsg ms ps (fun _ => [1]) (fun _ => [1])) 0 := by
+  refine ⟨by decide, by decide, ⟨by decide, by decide⟩, by decide, by decide⟩
+
 end KV.C14
